@@ -58,6 +58,16 @@ P = {
         "components": comp(real=["services tftp, memcached, snmp, counterstrike + services.Limiter (x/time/rate on the fake clock)", "listener/socket UDP path, DummyUDPConn"]),
         "assumptions": ["window strictly shorter than the interval (10 min - 1 ms): a token bucket of burst 4 refilling 1 per 10 min cannot exceed 4 in it"],
     },
+    "C01": {
+        "runs": {"quick": 3000, "thorough": 400000},
+        "budget_s": {"quick": 200, "thorough": 3300},
+        "rule": "one scenario = 1-3 services of the registry (every director-less service in rotation) + an echo liveness port, 1-4 interleaved connections per service instance each carrying a grammar dialogue, a truncation/mutation of one (length fields, reordering, repetition, out-of-state commands) or raw bytes (<=64 KiB) under seeded segmentation, ended by close / reset / half-close / silence past the idle deadline / a stalled peer; distinct = distinct trace digest; non-trivial = several connections, a mutated input or a fault",
+        "components": comp(real=["all 24 director-less services (real handlers)", "per-connection recover in server.handle"]),
+        "assumptions": ["process-level outcomes (exit status, panic:/fatal error: banner, CPU seconds and RSS per step) are observed by the driver from outside the worker", "interleavings finer than one delivered segment only through same-step batch release"],
+        "stall_s": 60,
+        "rss_mb": 2500,
+        "single_timeout": 240,
+    },
 }
 
 def get(prop):
